@@ -175,7 +175,18 @@ func c15RandProject(r *rand.Rand, malformed bool) (c15State, []string) {
 	if malformed {
 		for k := 0; k < 1+r.Intn(3); k++ {
 			x := names[r.Intn(n)]
-			switch r.Intn(6) {
+			switch r.Intn(8) {
+			case 6: // Name differs from the map key: an alias nobody else uses
+				s := svcs[x]
+				s.Name = x + "-alias"
+				svcs[x] = s
+			case 7: // two services carry each other's Name (names stay distinct)
+				y := names[r.Intn(n)]
+				if y != x && svcs[x].Name == "" && svcs[y].Name == "" {
+					sx, sy := svcs[x], svcs[y]
+					sx.Name, sy.Name = y, x
+					svcs[x], svcs[y] = sx, sy
+				}
 			case 0: // self dependency
 				svcs[x].Deps[x] = c15Dep{Required: r.Intn(2) == 0, Cond: "service_started"}
 			case 1: // back edge (cycle)
@@ -375,7 +386,7 @@ func runC15(ctx *core.Ctx) {
 		add(c15Args{Init: st, Ops: ops})
 	}
 
-	// 3. malformed stream: cycles, self and dangling dependencies, overlapping sets, unknown and empty names
+	// 3. malformed stream: cycles, self and dangling dependencies, overlapping sets, unknown and empty names, Name ≠ key
 	for i := 0; i < ctx.Pick(5000, 60000); i++ {
 		st, all := c15RandProject(ctx.Rng, true)
 		n := 1 + ctx.Rng.Intn(5)
